@@ -252,9 +252,98 @@ def genCrossedCase (idx : Nat) : Gen Case := do
   let names := ["charT", "byteT", "itemT", "entryT"]
   pure (mkCmp s!"C06-x{idx}" ("crossed/" ++ names.getD kind "" ++ "/w" ++ toString w) ts)
 
+/-! ### relations whose PHYSICAL column order is permuted
+
+A relation literal (and a set of tuples) stores its columns in sorted-name order; a join stores the columns of its result
+in the order `left ++ right`, so `{|b| …} <&> {|a| …}` is stored `[b, a]`.  `Rep.relation ns rows` carries the stored
+column order `ns`; the model's `Less` / `key` are independent of it (rows are compared as tuples), and the values below
+are given the representation with the permuted `ns`.  Go's row walks (`ArrayEnumerator`, `OrderedRange(p)`) do depend on
+it, so every client of the order is run over join-built relations next to literal spellings of the same relation and of
+neighbours (one cell changed). -/
+
+def relCell (ns : List String) (row : List Int) (c : String) : Int := (row.getD (ns.findIdx (· == c)) 0)
+
+/-- one row as a product of single-column relations in the column order `perm`, associated to the left or to the right -/
+def joinRowSrc (ns : List String) (row : List Int) (perm : List String) (right : Bool) : String :=
+  let fs := perm.map (fun c => "{|" ++ c ++ "| (" ++ Lit.numSrc (relCell ns row c) ++ ")}")
+  if right then fs.foldr (fun f acc => if acc == "" then f else "(" ++ f ++ " <&> " ++ acc ++ ")") ""
+  else "(" ++ " <&> ".intercalate fs ++ ")"
+
+/-- the relation with sorted names `ns` and rows `rows`, built by joins: stored column order `perm` -/
+def joinRelVal (ns : List String) (rows : List (List Int)) (perm : List String) (right : Bool) : Val :=
+  ⟨"(" ++ " | ".intercalate (rows.map (fun row => joinRowSrc ns row perm right)) ++ ")",
+   .relation perm (rows.map (fun row => perm.map (fun c => .num (relCell ns row c))))⟩
+
+/-- … when the rows are a full product `A × B`: one join of two multi-row relations (`{|b| (2), (1)} <&> {|a| (1)}`) -/
+def productRelVal (c1 c2 : String) (xs ys : List Int) : Val :=
+  let one (c : String) (vs : List Int) := "{|" ++ c ++ "| " ++ ", ".intercalate (vs.map (fun v => "(" ++ Lit.numSrc v ++ ")")) ++ "}"
+  ⟨"(" ++ one c1 xs ++ " <&> " ++ one c2 ys ++ ")",
+   .relation [c1, c2] (xs.flatMap (fun x => ys.map (fun y => [.num x, .num y])))⟩
+
+def litRelVal (ns : List String) (rows : List (List Int)) (asTuples : Bool) : Val :=
+  if asTuples then setVal (rows.map (fun row => tupVal (ns.zip (row.map (fun v => ofLitVal (.num v))))))
+  else ofLitVal (.rel ns (rows.map (fun row => row.map Lit.num)))
+
+def dedupRows (rows : List (List Int)) : List (List Int) := rows.eraseDups
+
+/-- change one cell of one row -/
+def neighbourRows (rows : List (List Int)) : Gen (List (List Int)) := do
+  let i ← rand rows.length
+  let row := rows.getD i []
+  let j ← rand row.length
+  let d ← pick [(-1 : Int), 1]
+  pure (dedupRows (rows.set i (row.set j (row.getD j 0 + d))))
+
+def genRelSpelling (ns : List String) (rows : List (List Int)) : Gen Val := do
+  let r ← rand 6
+  match r with
+  | 0 => pure (litRelVal ns rows false)
+  | 1 => pure (litRelVal ns (← shuffle rows) true)
+  | _ => do
+    let perm ← shuffle ns
+    -- a permutation that is not the sorted one, when there is one
+    let perm := if perm == ns then ns.reverse else perm
+    pure (joinRelVal ns (← shuffle rows) perm (← chance 1 2))
+
+/-- a relation with 2–3 columns and 2–4 rows in a random spelling (for nesting inside other values) -/
+def genPermRel : Gen Val := do
+  let k ← rand 2
+  let ns := (["a", "b", "c"].take (k + 2))
+  let n ← rand 3
+  let rows ← genList (n + 2) (genList ns.length (randInt 1 2))
+  genRelSpelling ns (dedupRows rows)
+
+/-- join-built relations against literal spellings of the same relation and of neighbours, wrapped alike -/
+def genPermRelCase (idx : Nat) : Gen Case := do
+  let k ← rand 2
+  let ns := (["a", "b", "c"].take (k + 2))
+  let n ← rand 3
+  let rows := dedupRows (← genList (n + 2) (genList ns.length (randInt 1 2)))
+  let rows := if rows.length < 2 then [ns.map (fun _ => 1), ns.map (fun _ => 2)] else rows
+  let perm ← shuffle ns
+  let perm := if perm == ns then ns.reverse else perm
+  let x := joinRelVal ns (← shuffle rows) perm (← chance 1 2)
+  let y := litRelVal ns rows (← chance 1 3)
+  let nb1 ← neighbourRows rows
+  let nb2 ← neighbourRows rows
+  let z ← genRelSpelling ns nb1
+  let u := litRelVal ns nb2 false
+  let m ← rand 4
+  let extra ← genRelSpelling ns (← neighbourRows nb1)
+  -- a full product, when the shape allows: `{|b| …} <&> {|a| …}`
+  let prod := productRelVal "b" "a" [2, 1] [(← randInt 1 2)]
+  let vs := match m with
+    | 0 => [x, y, z]
+    | 1 => [x, z, u]
+    | 2 => [x, y, z, u, extra]
+    | _ => if ns.length == 2 then [prod, x, y, z] else [x, z, u, extra]
+  let w ← rand 7
+  let vs ← shuffle (vs.map (wrapVal w))
+  pure (mkCmp s!"C06-r{idx}" s!"permrel/{ns.length}cols/w{w}" vs)
+
 /-- keys whose printed text and whose `<` order disagree: offsets, holes, mixed kinds -/
 def genKeyVal : Gen Val := do
-  let r ← rand 12
+  let r ← rand 13
   let off ← randInt (-1) 2
   let num (i : Int) := ofLitVal (.num i)
   match r with
@@ -277,6 +366,7 @@ def genKeyVal : Gen Val := do
   | 8 => do pure (num (← randInt (-1) 2))
   | 9 => do pure (ofLitVal (.tup [("a", .str (← randInt 0 1) [97 + (← rand 2)])]))
   | 10 => do pure (setVal [ofLitVal (.str off [97 + (← rand 2)])])
+  | 11 => genPermRel
   | _ => genVal 1
 
 /-- 4–8 keys for every client of the order -/
@@ -410,12 +500,14 @@ def gen (seed n : Nat) (thorough : Bool) : List Case := Id.run do
       out := c :: out
   for i in [0:n] do
     -- two pairs for every triple; a tenth of the budget on the float stream
-    -- of every 20: 2 float cases, 3 crossed specialised tuples, 3 key sets for the order's clients, 8 pairs, 4 triples
+    -- of every 20: 2 float cases, 3 crossed specialised tuples, 3 key sets for the order's clients, 2 permuted-storage
+    -- relations, 7 pairs, 3 triples
     let k := i % 20
     let (c, _) :=
       if k == 9 || k == 19 then (genFloatCase i).run (seedOf seed (600000 + i))
       else if k == 3 || k == 10 || k == 16 then (genCrossedCase i).run (seedOf seed (600000 + i))
       else if k == 5 || k == 12 || k == 17 then (genClientsCase i).run (seedOf seed (600000 + i))
+      else if k == 7 || k == 14 then (genPermRelCase i).run (seedOf seed (600000 + i))
       else (genCase i (k % 3 == 2) (thorough && i % 4 == 0)).run (seedOf seed (600000 + i))
     out := c :: out
   pure out.reverse
